@@ -383,12 +383,148 @@ func (e *recEstablisher) take() []estCall {
 	return c
 }
 
-type nopDeps struct{}
-
-func (nopDeps) Resolve(context.Context, pkgmetav1.Pkg, v1.PackageRevision) (int, int, int, error) {
-	return 0, 0, 0, nil
+// recDeps is a dependency manager that resolves nothing and records which
+// package metadata it was asked to resolve for which revision.
+type depCall struct {
+	Rev        string
+	Meta       string
+	Constraint string
+	Deps       []string
 }
-func (nopDeps) RemoveSelf(context.Context, v1.PackageRevision) error { return nil }
+
+type recDeps struct {
+	mu    sync.Mutex
+	calls []depCall
+}
+
+func (d *recDeps) Resolve(_ context.Context, m pkgmetav1.Pkg, pr v1.PackageRevision) (int, int, int, error) {
+	c := depCall{Rev: pr.GetName(), Meta: m.GetName()}
+	if cc := m.GetCrossplaneConstraints(); cc != nil {
+		c.Constraint = cc.Version
+	}
+	for _, dep := range m.GetDependencies() {
+		n := ""
+		for _, p := range []*string{dep.Package, dep.Provider, dep.Configuration, dep.Function} {
+			if p != nil {
+				n += *p
+			}
+		}
+		c.Deps = append(c.Deps, n+"@"+dep.Version)
+	}
+	d.mu.Lock()
+	d.calls = append(d.calls, c)
+	d.mu.Unlock()
+	return len(c.Deps), len(c.Deps), 0, nil
+}
+
+func (d *recDeps) RemoveSelf(context.Context, v1.PackageRevision) error { return nil }
+
+func (d *recDeps) take() []depCall {
+	d.mu.Lock()
+	defer d.mu.Unlock()
+	c := d.calls
+	d.calls = nil
+	return c
+}
+
+// hookClient is the reconciler's API client with a hook: immediately before
+// the at-th API call made after arm(), fn runs synchronously (calls made from
+// inside fn are neither counted nor hooked). Unarmed it only counts calls.
+type hookClient struct {
+	client.Client
+	mu   sync.Mutex
+	n    int
+	at   int
+	fn   func()
+	busy bool
+}
+
+func (h *hookClient) arm(at int, fn func()) {
+	h.mu.Lock()
+	h.n, h.at, h.fn = 0, at, fn
+	h.mu.Unlock()
+}
+
+func (h *hookClient) disarm() int {
+	h.mu.Lock()
+	defer h.mu.Unlock()
+	n := h.n
+	h.at, h.fn = 0, nil
+	return n
+}
+
+func (h *hookClient) before() {
+	h.mu.Lock()
+	if h.busy {
+		h.mu.Unlock()
+		return
+	}
+	h.n++
+	run := h.fn != nil && h.n == h.at
+	fn := h.fn
+	if run {
+		h.busy = true
+	}
+	h.mu.Unlock()
+	if run {
+		fn()
+		h.mu.Lock()
+		h.busy = false
+		h.mu.Unlock()
+	}
+}
+
+func (h *hookClient) Get(ctx context.Context, key client.ObjectKey, obj client.Object, opts ...client.GetOption) error {
+	h.before()
+	return h.Client.Get(ctx, key, obj, opts...)
+}
+
+func (h *hookClient) List(ctx context.Context, list client.ObjectList, opts ...client.ListOption) error {
+	h.before()
+	return h.Client.List(ctx, list, opts...)
+}
+
+func (h *hookClient) Create(ctx context.Context, obj client.Object, opts ...client.CreateOption) error {
+	h.before()
+	return h.Client.Create(ctx, obj, opts...)
+}
+
+func (h *hookClient) Delete(ctx context.Context, obj client.Object, opts ...client.DeleteOption) error {
+	h.before()
+	return h.Client.Delete(ctx, obj, opts...)
+}
+
+func (h *hookClient) Update(ctx context.Context, obj client.Object, opts ...client.UpdateOption) error {
+	h.before()
+	return h.Client.Update(ctx, obj, opts...)
+}
+
+func (h *hookClient) Patch(ctx context.Context, obj client.Object, p client.Patch, opts ...client.PatchOption) error {
+	h.before()
+	return h.Client.Patch(ctx, obj, p, opts...)
+}
+
+func (h *hookClient) Status() client.SubResourceWriter { return &hookSub{h: h, w: h.Client.Status()} }
+
+type hookSub struct {
+	h *hookClient
+	w client.SubResourceWriter
+}
+
+func (s *hookSub) Create(ctx context.Context, obj, sub client.Object, opts ...client.SubResourceCreateOption) error {
+	s.h.before()
+	return s.w.Create(ctx, obj, sub, opts...)
+}
+
+func (s *hookSub) Update(ctx context.Context, obj client.Object, opts ...client.SubResourceUpdateOption) error {
+	s.h.before()
+	return s.w.Update(ctx, obj, opts...)
+}
+
+func (s *hookSub) Patch(ctx context.Context, obj client.Object, p client.Patch, opts ...client.SubResourcePatchOption) error {
+	s.h.before()
+	return s.w.Patch(ctx, obj, p, opts...)
+}
 
 // fixedVersion is version.Operations for a fixed running version.
 type fixedVersion string
@@ -433,6 +569,8 @@ type env struct {
 	cache   *xpkg.FsPackageCache
 	fetcher *fetcher
 	est     *recEstablisher
+	deps    *recDeps
+	hooks   map[string]*hookClient
 	flags   *feature.Flags
 	recs    map[string]*revision.Reconciler
 }
@@ -460,7 +598,7 @@ func linterFor(typ string) parser.Linter {
 }
 
 func newEnv(verification bool) *env {
-	e := &env{sim: verifsim.New(verifsim.NewScheme()), fs: newFaultFs(), fetcher: newFetcher(), est: &recEstablisher{}, flags: &feature.Flags{}, recs: map[string]*revision.Reconciler{}}
+	e := &env{sim: verifsim.New(verifsim.NewScheme()), fs: newFaultFs(), fetcher: newFetcher(), est: &recEstablisher{}, deps: &recDeps{}, hooks: map[string]*hookClient{}, flags: &feature.Flags{}, recs: map[string]*revision.Reconciler{}}
 	e.sim.ClusterScoped = nil
 	if verification {
 		e.flags.Enable(features.EnableAlphaSignatureVerification)
@@ -469,11 +607,12 @@ func newEnv(verification bool) *env {
 	_ = e.fs.Fs.MkdirAll(cacheDir, 0o755)
 	for _, typ := range pkgTypes {
 		typ := typ
-		c := e.sim.Client("revision-" + typ)
+		c := &hookClient{Client: e.sim.Client("revision-" + typ)}
+		e.hooks[typ] = c
 		mgr := &fakeManager{c: c}
 		e.recs[typ] = revision.NewReconciler(mgr,
 			revision.WithCache(e.cache),
-			revision.WithDependencyManager(nopDeps{}),
+			revision.WithDependencyManager(e.deps),
 			revision.WithEstablisher(e.est),
 			revision.WithNewPackageRevisionFn(func() v1.PackageRevision { return newRev(typ) }),
 			revision.WithParser(parser.New(metaScheme, objScheme)),
